@@ -13,6 +13,7 @@ import (
 	"sync"
 	"time"
 
+	"github.com/pion/ice/v4/internal/verifhook"
 	"github.com/pion/logging"
 	"github.com/pion/stun/v3"
 )
@@ -228,6 +229,7 @@ func (m *TCPMuxDefault) handleConn(conn net.Conn) { //nolint:cyclop
 	if err = conn.SetReadDeadline(time.Time{}); err != nil {
 		m.params.Logger.Warnf("Failed to reset read deadline from %s: %s", conn.RemoteAddr(), err)
 	}
+	verifhook.Yield("tcpmux.handleConn.afterFirstFrame")
 
 	buf = buf[:n]
 
@@ -312,6 +314,7 @@ func (m *TCPMuxDefault) handleConn(conn net.Conn) { //nolint:cyclop
 		}
 	}
 	m.mu.Unlock()
+	verifhook.Yield("tcpmux.handleConn.beforeAddConn")
 
 	if err := packetConn.AddConn(conn, buf); err != nil {
 		m.closeAndLogError(conn)
@@ -348,6 +351,7 @@ func (m *TCPMuxDefault) Close() error {
 	err := m.params.Listener.Close()
 
 	m.mu.Unlock()
+	verifhook.Yield("tcpmux.Close.beforeWait")
 
 	m.wg.Wait()
 
